@@ -70,16 +70,17 @@ def expand (l : List Route) : List Entry :=
 structure Obs where
   use : Bool
   pretty : Bytes
+  written : Bytes
   path : Bytes
   params : List Bytes
   hid : Nat
   deriving Repr, DecidableEq
 
 def expandObs (l : List Route) : List Obs :=
-  l.flatMap fun r => r.handlers.map fun h => ⟨r.use, r.pretty, r.path, r.params, h⟩
+  l.flatMap fun r => r.handlers.map fun h => ⟨r.use, r.pretty, r.written, r.path, r.params, h⟩
 
 def obsOf (cfg : Cfg) (po : Bytes → List Bytes) (e : Entry) : Obs :=
-  ⟨e.1, prettyOf cfg e.2.1, cleanOf cfg e.2.1, po e.2.1, e.2.2⟩
+  ⟨e.1, prettyOf cfg e.2.1, writtenOf cfg e.2.1, cleanOf cfg e.2.1, po e.2.1, e.2.2⟩
 
 /-! ### oracle on the implementation's observation -/
 
